@@ -199,6 +199,34 @@ def subspaceDot (Ps Bs : List (Op α)) (isT : Bool) (x : Tensor α) : Except Err
     if Ps.length ≠ Bs.length then .error .assertion else
     linopDot P0.m P0.m (subspaceMatvec Ps Bs isT) (defaultMatmat P0.m (subspaceMatvec Ps Bs isT)) x
 
+/-- the state of a `SubspaceOperator` object: prolongations, local operators, `_is_transpose` -/
+structure Subspace (α : Type) where
+  Ps : List (Op α)
+  Bs : List (Op α)
+  isT : Bool
+
+/-- `_transpose`: same `subspaces`, same `Bs`, `_is_transpose` negated -/
+def Subspace.T (S : Subspace α) : Subspace α := { S with isT := !S.isT }
+
+/-- `_adjoint` (fix 8b80f7d): `conj(P_j)` (= `P_j` for the real scalars modelled here), `_adjoint_of(B_j)`
+(= `B_jᵀ`), and the `_is_transpose` flag is carried over -/
+def Subspace.H (S : Subspace α) : Subspace α := { Ps := S.Ps, Bs := S.Bs.map Op.T, isT := S.isT }
+
+def Subspace.dot (S : Subspace α) (x : Tensor α) : Except Err (Tensor α) := subspaceDot S.Ps S.Bs S.isT x
+
+/-- a word over `{T, H}` applied left to right (`"TH"` = `X.T.H`); `true` = `T`, `false` = `H` -/
+def Subspace.word (S : Subspace α) (w : List Bool) : Subspace α :=
+  w.foldl (fun S t => if t then S.T else S.H) S
+
+/-- KroneckerOperator: `_transpose` maps `B.T`, `_adjoint` maps `_adjoint_of(B)`; both are `B.T` for
+real scalars -/
+def kronWord (ops : List (Op α)) (w : List Bool) : List (Op α) := w.foldl (fun o _ => kronT o) ops
+
+/-- BaseBlockOperator: `_transpose` and `_adjoint` both swap the ranges and transpose/adjoint the blocks -/
+def BaseBlock.word (B : BaseBlock α) (w : List Bool) : BaseBlock α := w.foldl (fun b _ => b.T) B
+
+def BlockResult.word (B : BlockResult α) (w : List Bool) : BlockResult α := w.foldl (fun b _ => b.T) B
+
 /-! ### CSRRowSlice / CSRRowSubset (utils.py l.116-179) -/
 
 structure CSR (α : Type) where
